@@ -398,6 +398,18 @@ func TestInsertionOrderIrrelevant(t *testing.T) {
 		}
 		c := orderCase{SrcA: prog(ps, qs), SrcB: prog(rapid.Permutation(ps).Draw(t, "perm-a"), rapid.Permutation(qs).Draw(t, "perm-b"))}
 		labels := []string{"insertion-order-permuted"}
+		if rapid.IntRange(0, 3).Draw(t, "self") == 0 {
+			// ... nor on whether the two operands are one and the same dictionary or two with
+			// the same contents
+			op := rapid.SampledFrom([]string{"为", "==", "不为", "/="}).Draw(t, "self-op")
+			head := "定义狗：\n    其名 = “黄”\n如何某法？\n    输出1\n令物 = （新建狗）\n令另 = （新建狗）\n令甲 = 【" + strings.Join(ps, "，") + "】\n"
+			wrapA, wrapB := "甲 "+op+" 甲", "甲 "+op+" 丙"
+			if rapid.Bool().Draw(t, "self-nested") {
+				head += "令甲 = 【1，甲】\n"
+			}
+			c = orderCase{SrcA: head + "令丙 = 甲\n输出" + wrapA, SrcB: head + "令丙 = 甲\n输出" + wrapB}
+			labels = []string{"same-instance-against-equal-copy"}
+		}
 		if hard > 0 && diff > 0 {
 			labels = append(labels, "incomparable-entry-next-to-differing-entry")
 		}
